@@ -216,7 +216,7 @@ func (d *Downstream) run() error {
 	eg, ctx := errgroup.WithContext(ctx)
 
 	eg.Go(func() error {
-		defer d.eventDispatcher.cond.Broadcast()
+		defer d.eventDispatcher.wake()
 		defer d.state.cond.Broadcast()
 		<-ctx.Done()
 		return nil
